@@ -389,3 +389,66 @@ Lemma ersatz_pwrite_ok data off file o :
   no_err (os_script o) = true -> data <> [] ->
   exists o', ersatz_pwrite data off file o = (Ok (overwrite file off data), o') /\ no_err (os_script o') = true.
 Proof. intros H Hd. apply ersatz_pwrite_loop_ok; [exact H|lia|exact Hd]. Qed.
+
+(* ---- ThreadedBufferedStream data path ---- *)
+Lemma tbs_write_ok : forall fuel data buf bsize,
+  1 <= bsize -> length buf <= bsize ->
+  length data + (if length buf =? bsize then 1 else 0) < fuel ->
+  exists blocks buf', tbs_write fuel data buf bsize = Ok (blocks, buf') /\
+    concat blocks ++ buf' = buf ++ data /\ length buf' <= bsize /\
+    Forall (fun b => length b = bsize) blocks.
+Proof.
+  induction fuel as [|f IH]; intros data buf bsize Hb Hbuf Hf; [lia|].
+  cbn [tbs_write]. destruct (Nat.leb_spec (length buf + length data) bsize) as [Hfit|Hover].
+  - exists [], (buf ++ data). simpl. repeat split; auto. rewrite app_length. lia.
+  - set (room := bsize - length buf).
+    assert (Hfl : length (buf ++ firstn room data) = bsize).
+    { rewrite app_length, firstn_length. unfold room. lia. }
+    destruct (buf ++ firstn room data) as [|x full] eqn:Efull; [simpl in Hfl; lia|].
+    rewrite <- Efull in *.
+    destruct (IH (skipn room data) [] bsize Hb) as (blocks & buf' & E & Hc & Hl & Hall).
+    { simpl. lia. }
+    { rewrite skipn_length. simpl length. replace (0 =? bsize) with false by (symmetry; apply Nat.eqb_neq; lia).
+      unfold room. destruct (Nat.eqb_spec (length buf) bsize); lia. }
+    rewrite E. exists ((buf ++ firstn room data) :: blocks), buf'. split; [reflexivity|].
+    repeat split; auto.
+    + simpl. rewrite <- app_assoc, Hc. simpl. rewrite <- app_assoc. f_equal. apply firstn_skipn.
+Qed.
+
+Lemma tbs_blocks_ok : forall ws buf bsize, 1 <= bsize -> length buf <= bsize ->
+  exists blocks, tbs_blocks ws buf bsize = Ok blocks /\ concat blocks = buf ++ concat ws /\
+    Forall (fun b => 1 <= length b <= bsize) blocks.
+Proof.
+  induction ws as [|w ws IH]; intros buf bsize Hb Hbuf.
+  - simpl. destruct buf as [|x buf].
+    + exists []. auto.
+    + exists [x :: buf]. simpl. rewrite !app_nil_r. repeat split; auto. constructor; [simpl in *; lia|constructor].
+  - cbn [tbs_blocks].
+    destruct (tbs_write_ok (length w + 2) w buf bsize Hb Hbuf) as (blocks & buf' & E & Hc & Hl & Hall).
+    { destruct (length buf =? bsize); lia. }
+    rewrite E. destruct (IH buf' bsize Hb Hl) as (more & E2 & Hc2 & Hall2). rewrite E2.
+    exists (blocks ++ more). split; [reflexivity|]. split.
+    + rewrite concat_app, Hc2, app_assoc, Hc, <- app_assoc. reflexivity.
+    + apply Forall_app. split; [|exact Hall2].
+      eapply Forall_impl; [|exact Hall]. simpl. intros a Ha. lia.
+Qed.
+
+Lemma write_blocks_ok : forall blocks o, no_err (os_script o) = true ->
+  exists o', write_blocks blocks o = (Ok tt, o') /\ os_sink o' = os_sink o ++ concat blocks /\
+    no_err (os_script o') = true.
+Proof.
+  induction blocks as [|b r IH]; intros o Hne.
+  - exists o. simpl. rewrite app_nil_r. auto.
+  - simpl. destruct (write_or_throw_ok b o Hne) as (o1 & E & S & _ & N & _). rewrite E.
+    destruct (IH o1 N) as (o2 & E2 & S2 & N2). exists o2. rewrite E2. repeat split; auto.
+    rewrite S2, S, <- app_assoc. reflexivity.
+Qed.
+
+Lemma tbs_run_ok ws bsize o : 1 <= bsize -> no_err (os_script o) = true ->
+  exists o', tbs_run ws bsize o = (Ok tt, o') /\ os_sink o' = os_sink o ++ concat ws.
+Proof.
+  intros Hb Hne. unfold tbs_run.
+  destruct (tbs_blocks_ok ws [] bsize Hb) as (blocks & E & Hc & _); [simpl; lia|].
+  rewrite E. destruct (write_blocks_ok blocks o Hne) as (o' & E2 & S & _).
+  exists o'. split; [exact E2|]. rewrite S, Hc. reflexivity.
+Qed.
